@@ -11,6 +11,7 @@ Aliasing is tracked conservatively: a name bound by plain assignment from a para
 from an attribute of one (`y0.array`, `dae.p`) is an alias until it is rebound to a call result / expression.
 """
 import ast
+import re
 from pathlib import Path
 
 SOLVERS = {
@@ -42,7 +43,9 @@ def _root(node):
 
 
 class FnEffects(ast.NodeVisitor):
-    def __init__(self, fn, module_names):
+    def __init__(self, fn, module_names, hook_ok=False):
+        self.hook_ok = hook_ok
+        self.hook_sites = 0
         self.params = {a.arg for a in fn.args.args + fn.args.kwonlyargs}
         if fn.args.vararg:
             self.params.add(fn.args.vararg.arg)
@@ -65,6 +68,20 @@ class FnEffects(ast.NodeVisitor):
 
     def visit_Lambda(self, node):
         self.visit(node.body)
+
+    def visit_If(self, node):
+        # the registered verification hook (MANIFEST.hooks): `if _VERIF: _verif_trace.append(...)`, where
+        # _VERIF is the SOLVERZ_VERIF=1 environment guard and _verif_trace is a write-only module-level log
+        # (both facts are checked per file by `hook_is_write_only`).  With the guard off the branch is dead;
+        # with it on the log is never read by the package, so it cannot carry state between calls.
+        if (self.hook_ok and isinstance(node.test, ast.Name) and node.test.id == "_VERIF" and not node.orelse
+                and all(_is_trace_append(st) for st in node.body)):
+            self.hook_sites += 1
+            for st in node.body:                      # the arguments are still analysed (they must be pure reads)
+                for a in st.value.args + [k.value for k in st.value.keywords]:
+                    self.visit(a)
+            return
+        self.generic_visit(node)
 
     def visit_Global(self, node):
         self.global_state.append(f"{self.fn.name}: global {', '.join(node.names)}")
@@ -141,6 +158,43 @@ class FnEffects(ast.NodeVisitor):
         self.generic_visit(node)
 
 
+def _is_trace_append(st):
+    return (isinstance(st, ast.Expr) and isinstance(st.value, ast.Call) and isinstance(st.value.func, ast.Attribute)
+            and st.value.func.attr == "append" and isinstance(st.value.func.value, ast.Name)
+            and st.value.func.value.id == "_verif_trace")
+
+
+def hook_is_write_only(tree) -> bool:
+    """_VERIF is exactly `<os>.environ.get('SOLVERZ_VERIF') == '1'`, assigned once at module level, and every
+    occurrence of _verif_trace is its module-level `= []` or an `.append(...)` statement directly under `if _VERIF:`."""
+    guard = [st for st in tree.body if isinstance(st, ast.Assign) and any(isinstance(t, ast.Name) and t.id == "_VERIF" for t in st.targets)]
+    if len(guard) != 1:
+        return False
+    g = ast.unparse(guard[0].value).replace('"', "'")
+    if not re.fullmatch(r"_?os\.environ\.get\('SOLVERZ_VERIF'\) == '1'", g):
+        return False
+    stores = [n for n in ast.walk(tree) if isinstance(n, ast.Name) and n.id == "_VERIF" and isinstance(n.ctx, ast.Store)]
+    if len(stores) != 1:
+        return False
+    allowed = set()
+    for st in tree.body:
+        if isinstance(st, ast.Assign) and len(st.targets) == 1 and isinstance(st.targets[0], ast.Name) and st.targets[0].id == "_verif_trace":
+            if not (isinstance(st.value, ast.List) and not st.value.elts):
+                return False
+            allowed.add(id(st.targets[0]))
+    for n in ast.walk(tree):
+        if isinstance(n, ast.If) and isinstance(n.test, ast.Name) and n.test.id == "_VERIF":
+            for st in n.body:
+                if _is_trace_append(st):
+                    allowed.add(id(st.value.func.value))
+    for n in ast.walk(tree):
+        if isinstance(n, ast.Name) and n.id == "_verif_trace" and id(n) not in allowed:
+            return False
+        if isinstance(n, ast.Global) and ("_verif_trace" in n.names or "_VERIF" in n.names):
+            return False
+    return True
+
+
 def analyse(repo: Path):
     out = {}
     files = {}
@@ -154,8 +208,8 @@ def analyse(repo: Path):
                     for t in st.targets:
                         if isinstance(t, ast.Name):
                             mod_names.add(t.id)
-            files[rel] = (tree, mod_names)
-        tree, mod_names = files[rel]
+            files[rel] = (tree, mod_names, hook_is_write_only(tree))
+        tree, mod_names, hook_ok = files[rel]
         fn = None
         for st in ast.walk(tree):
             if isinstance(st, ast.FunctionDef) and st.name == name:
@@ -164,8 +218,9 @@ def analyse(repo: Path):
         if fn is None:
             out[name] = dict(missing=True, opt_writes=[f"{name}: function not found in {rel}"], arg_stores=[], global_state=[])
             continue
-        e = FnEffects(fn, mod_names)
-        out[name] = dict(opt_writes=e.opt_writes, arg_stores=e.arg_stores, global_state=e.global_state, file=rel)
+        e = FnEffects(fn, mod_names, hook_ok)
+        out[name] = dict(opt_writes=e.opt_writes, arg_stores=e.arg_stores, global_state=e.global_state, file=rel,
+                         hook_sites=e.hook_sites)
         # other memoised / stateful helpers in the same file
         for st in tree.body:
             if isinstance(st, ast.FunctionDef) and st.name not in (name,):
